@@ -12,7 +12,7 @@ import vlib
 from checks import progen, proglib
 from checks.common import Case, observe, judge_case
 
-LEVEL = "exploration"
+LEVEL = "translation_validation"
 PROP = "C19"
 
 KERNELS = {
